@@ -83,6 +83,12 @@ def make_cases(table, tier, rng):
         for ci in rng.sample(range(len(cfgs)), 2):
             add(r, ci, "overlong-line")
             cases[-1]["long"] = 1
+    # a real child process launched with Cmd (the stock runner's address translation is in the path): accepted lines and
+    # lines one field away, all spellings of the address field by variant
+    reals = [r for r in accepted + near if r["line"]["net"] in ("unix", "tcp") and r["line"]["ws"] != "padded"]
+    for r in rng.sample(reals, min(len(reals), 24 if tier == "quick" else 400)):
+        add(r, rng.randrange(len(cfgs)), "real-process")
+        cases[-1]["real"] = True
     unixacc = [r for r in accepted if r["line"]["net"] == "unix"]
     for r in rng.sample(unixacc, min(len(unixacc), 10 if tier == "quick" else 200)):
         for ci in rng.sample(range(len(cfgs)), 2):
